@@ -1,6 +1,35 @@
 from props import RULE_SET, only  # noqa: F401
 
+import os, re
+
+
+def unsafe_sites_audit():
+    """Every `unsafe` block of the (non-simd) crate source must be one of the modelled sites, i.e. be preceded by a
+    `verif_hooks::site(..)` recorder within the few lines above it. A new or un-instrumented unsafe site means the
+    bounds theorems and the recorders no longer cover the code: reported as a proof-obligation failure."""
+    root = "/repo/roaring/src"
+    problems = []
+    n_sites = 0
+    for d, _, files in os.walk(root):
+        for f in files:
+            if not f.endswith(".rs") or f in ("vector.rs", "verif_hooks.rs"):
+                continue  # vector.rs: nightly-only `simd` feature, out of scope (DESIGN §10)
+            path = os.path.join(d, f)
+            lines = open(path).read().split("\n")
+            for i, ln in enumerate(lines):
+                code = ln.split("//")[0]
+                if re.search(r"\bunsafe\b", code) and not re.search(r"unsafe_op_in_unsafe_fn", code):
+                    n_sites += 1
+                    window = "\n".join(lines[max(0, i - 8):i + 1])
+                    if "verif_hooks::site(" not in window:
+                        problems.append("unsafe code without a bounds recorder at %s:%d: %s" % (os.path.relpath(path, "/repo"), i + 1, ln.strip()[:80]))
+    if n_sites != 16:
+        problems.append("expected 16 unsafe sites in the non-simd source (the ones modelled in Unsafe.lean / UnsafeIter.lean), found %d" % n_sites)
+    return problems
+
+
 CFG = {
+    "extra_audit": unsafe_sites_audit,
     "gen_profiles": ["C15"],
     "cases": {"quick": 400, "thorough": 6000},
     "compare": "set",
